@@ -1,6 +1,6 @@
 (* Ops/C19.v — protocol entry points for property C19 (1-Euclidean). *)
 From Coq Require Import List NArith ZArith QArith String.
-From PrefVerif Require Import Lib.Val Model.Euclid Model.EuclidLP.
+From PrefVerif Require Import Lib.Val Model.Euclid Model.EuclidLP Model.EuclidAlgo.
 Import ListNotations.
 Open Scope string_scope.
 
@@ -25,6 +25,14 @@ Definition op_refuted_fast (v : val) : val :=
 Definition op_decide (v : val) : val :=
   ebool (eucl_decide (d_order (dnth 0 v)) (d_orders (dnth 1 v))).
 
+(* c19.algo (alts orders) -> result: the mirror of is_one_euclidean with the exact LP instance;
+   (0 (voters alternatives)) with voters = ((num den) ...), alternatives = ((alt num den) ...); (0 ()) = False; (1 code) *)
+Definition e_Q (q : Q) : val := VL [VI (Qnum q); VI (Zpos (Qden q))].
+Definition e_apos (cq : N * Q) : val := VL [eN (fst cq); VI (Qnum (snd cq)); VI (Zpos (Qden (snd cq)))].
+Definition op_algo (v : val) : val :=
+  eresult (eoption (fun r : list Q * list (N * Q) => VL [elist e_Q (fst r); elist e_apos (snd r)]))
+          (eucl_algo_exact (d_order (dnth 0 v)) (d_orders (dnth 1 v))).
+
 Definition ops : optable :=
   [ ("c19.check", op_check); ("c19.refuted", op_refuted); ("c19.refuted_fast", op_refuted_fast);
-    ("c19.decide", op_decide) ].
+    ("c19.decide", op_decide); ("c19.algo", op_algo) ].
